@@ -119,12 +119,13 @@ class SQLiteBuilder(SQLBuilder):
     def datetime_add(builder, funcname, expr, td):
         assert isinstance(td, datetime.timedelta)
         modifiers = []
+        negative = td.days < 0
         seconds = td.seconds + td.days * 24 * 3600
         microseconds = td.microseconds
-        if seconds < 0 and microseconds:
+        if negative and microseconds:
             seconds += 1
             microseconds = 1000000 - microseconds
-        sign = '+' if seconds > 0 or (not seconds and microseconds) else '-'
+        sign = '-' if negative else '+'
         seconds = abs(seconds)
         if seconds >= (24 * 3600):
             days = seconds // (24 * 3600)
